@@ -40,6 +40,7 @@ def attr_lines(name, items, split, indent=""):
 def program(x):
     """-> (source, item line range, offending variant line range or item range)"""
     rule, d, kw, shape, pos, split = x["rule"], x["derive"], x["kw"], x["shape"], x["pos"], x["split"]
+    ctx = x.get("ctx", "plain")
     lines = PRELUDE.splitlines()
     derive_line = "#[derive(%sstrum::%s)]" % ((STD.get(d, "Debug") + ", "), d)
     enum_attrs, head, generics = [], "pub enum E", ""
@@ -123,6 +124,12 @@ def program(x):
             enum_attrs = ["#[strum(bogus)]"]
         else:
             bad = ['    #[strum(bogus = "x")]', "    Bad,"]
+    # contexts (Reject.tla ContextsOf): valid additions around the offence
+    if ctx == "generic":
+        generics = "<T: Default + Clone + PartialEq + ::core::fmt::Debug>"
+        extra_ok = extra_ok + [["    Gen(T),"]]
+    elif ctx == "styled":
+        enum_attrs = ['#[strum(serialize_all = "kebab-case")]'] + enum_attrs
     start = len(lines) + 1
     lines.append(derive_line)
     lines += enum_attrs
@@ -132,6 +139,10 @@ def program(x):
     if bad is not None:
         idx = {"first": 0, "middle": 1, "last": len(vs)}.get(pos or "last", len(vs))
         vs.insert(idx, bad)
+    if ctx == "disabled_nb":
+        vs.insert(0, ["    #[strum(disabled)]", "    Off,"])
+    elif ctx == "default_nb":
+        vs.append(["    #[strum(default)]", "    Other(String),"])
     for v in vs:
         if v is bad:
             vrange = [len(lines) + 1, len(lines) + len(v)]
@@ -143,7 +154,7 @@ def program(x):
 
 def canary(grp):
     for e in grp:
-        if e.get("op") == "compile":
+        if e.get("op") == "compile" and e["rule"] != "control" and e["ctl"]:
             e["ok"] = True
             return True
     return False
@@ -152,7 +163,7 @@ def canary(grp):
 def model(tier):
     cfg = core.workdir("mc_" + PROP) + "/MC_Reject.cfg"
     consts = dict(MaxLen=4 if tier == "quick" else 6)
-    core.write_cfg(cfg, constants=consts, invariants=["ErrorIffDuplicate", "ReportsFirstDuplicate", "InstancesOutsideDomain"])
+    core.write_cfg(cfg, constants=consts, invariants=["ErrorIffDuplicate", "ReportsFirstDuplicate"])
     res = core.tlc_mc("MC_Reject.tla", cfg, "mc_" + PROP, workers=6, timeout=3600, xmx="8g")
     for a in ("ReadMeta", "Finish"):
         if res["coverage"].get(a, 0) == 0:
@@ -161,7 +172,7 @@ def model(tier):
 
 
 def finding_key(x, ok, panicked):
-    return dict(rule=x["rule"], derive=x["derive"], kw=x["kw"], outcome="compiled" if ok else ("panic" if panicked else "error_elsewhere"))
+    return dict(rule=x["rule"], derive=x["derive"], kw=x["kw"], ctx=x.get("ctx", "plain"), outcome="compiled" if ok else ("panic" if panicked else "error_elsewhere"))
 
 
 def run(tier, seed, rep):
@@ -187,9 +198,18 @@ def run(tier, seed, rep):
             panicked = any("proc-macro derive panicked" in (d.get("message") or "") or "proc macro panicked" in (d.get("message") or "") for d in diags)
             ev = dict(op="compile", inst=n, ok=ok, panicked=panicked, spans=spans, item=item, variant=vrange, msgs=msgs, **x)
             return ev, src
-        todo = [(n, x) for n, x in enumerate(insts, 1) if core.only_defs() is None or n in core.only_defs()]
-        res = core.pmap(compile_one, todo)
+        insts.sort(key=lambda x: (x["rule"] != "control", x["rule"], x["derive"], x["kw"], x["shape"], x["pos"], x["split"], x["ctx"]))
+        todo = [(n, x) for n, x in enumerate(insts, 1) if core.only_defs() is None or n in core.only_defs() or x["rule"] == "control"]
+        # controls first: an instance is judged only where its skeleton compiles without the offence
+        ctl_res = core.pmap(compile_one, [(n, x) for n, x in todo if x["rule"] == "control"])
+        ctl_ok = {(r[0]["derive"], r[0]["ctx"]): r[0]["ok"] for r in ctl_res}
+        res = ctl_res + core.pmap(compile_one, [(n, x) for n, x in todo if x["rule"] != "control"])
         evs = [r[0] for r in res]
+        for e in evs:
+            e["ctl"] = True if e["rule"] in ("control", "non_enum") else ctl_ok.get((e["derive"], e["ctx"]), False)
+        broken = sorted(k for k, v in ctl_ok.items() if not v)
+        if broken:
+            core.log("[C20] controls that do not compile (their instances are not judged): %s" % broken)
         srcs = {r[0]["inst"]: r[1] for r in res}
         groups = [[e] for e in evs]
         mism = pipe.validate_groups("Trace_Build", groups, PROP, rep, shard_bytes=400_000, canary=canary)
@@ -197,14 +217,17 @@ def run(tier, seed, rep):
             rep.violation(finding_key(ev, ev["ok"], ev["panicked"]),
                           "unsupported input is not rejected with an error at the item (%s on %s, %s %s %s): compiled=%s panicked=%s"
                           % (ev["rule"], ev["derive"], ev["kw"], ev["shape"], ev["pos"], ev["ok"], ev["panicked"]),
-                          dict(definition=dict(id=ev["inst"]), instance={k: ev[k] for k in ("rule", "derive", "kw", "shape", "pos", "split")}, messages=ev["msgs"], tlc=text,
+                          dict(definition=dict(id=ev["inst"]), instance={k: ev[k] for k in ("rule", "derive", "kw", "shape", "pos", "split", "ctx")}, messages=ev["msgs"], tlc=text,
                                files={"program.rs": srcs[ev["inst"]]}))
         name, r, consts = mc.result()
         rep.add_model(name, r, consts)
     rep.cov["programs"] = len(evs)
     rep.cov["evaluations"] = len(evs)
-    rep.cov["distinct_nontrivial"] = len({(e["rule"], e["derive"], e["kw"], e["shape"], e["pos"], e["split"]) for e in evs})
+    rep.cov["distinct_nontrivial"] = len({(e["rule"], e["derive"], e["kw"], e["shape"], e["pos"], e["split"], e["ctx"]) for e in evs})
     rep.cov["at_variant"] = sum(1 for e in evs if any(e["variant"][0] <= s[0] and s[1] <= e["variant"][1] for s in e["spans"]))
+    rep.cov["controls"] = sum(1 for e in evs if e["rule"] == "control")
+    rep.cov["controls_not_compiling"] = [list(k) for k in broken]
+    rep.cov["unjudged"] = sum(1 for e in evs if not e["ctl"])
     rep.cov["exhaustive"] = True
     rep.cov["rule"] = ("the instance list is enumerated by the specification (Reject.tla: rule x derive that consumes the construct x shape x "
                        "position x same/separate attributes, each mixed with valid variants): %d programs, each compiled on its own with rustc; "
